@@ -89,7 +89,11 @@ pub fn check(fast: &Analysis, slow: &Analysis, obs: &mut Obs) -> Vec<Violation> 
             format!("sample resolution differs between layouts: fast-start {:?} ; standard {:?}", c1.first().map(|x| &x.detail), c2.first().map(|x| &x.detail)),
         ));
     } else if !s1.is_empty() {
-        obs.count("resolver_failures_in_both_layouts(delegated to C01)", 1);
+        // "in both layouts every chunk offset is ... correct for that layout"
+        out.push(v(
+            format!("addressing|both-layouts|{:?}", s1),
+            format!("samples do not resolve in either layout: fast-start {:?} ; standard {:?}", c1.first().map(|x| &x.detail), c2.first().map(|x| &x.detail)),
+        ));
     } else {
         obs.count("pairs_resolving_in_both_layouts", 1);
     }
